@@ -143,7 +143,7 @@ func (g *jsonGen) forwarding() (*core.Forwarding, string) {
 		if f, err := forwardingtypes.NewCCTPForwarding(d, m, c, pass); err == nil {
 			return f, "constructor/cctp"
 		}
-		return &core.Forwarding{ProtocolId: rng.Pick(g.r, []core.ProtocolID{2, 2, 2, 3, 0, 7}), PassthroughPayload: pass,
+		return &core.Forwarding{ProtocolId: rng.Pick(g.r, []core.ProtocolID{2, 2, 2, 3, 0, 7, 5}), PassthroughPayload: pass,
 			Attributes: anyOf(&forwardingtypes.CCTPAttributes{DestinationDomain: d, MintRecipient: m, DestinationCaller: c})}, "direct/cctp"
 	case 1:
 		tok, d, rc, hook := g.bytesN(32, 32, 32, 0, 5), g.domain(), g.bytesN(32, 32, 32, 0, 40), g.bytesN(0, 0, 32, 32, 7)
@@ -205,7 +205,7 @@ func (g *jsonGen) payload() (*core.PayloadWrapper, string) {
 			continue
 		}
 		how = strings.Replace(how, "constructor", "direct", 1)
-		acts = append(acts, &core.Action{Id: rng.Pick(g.r, []core.ActionID{1, 1, 1, 2, 0, 9}), Attributes: anyOf(&actiontypes.FeeAttributes{FeesInfo: infos})})
+		acts = append(acts, &core.Action{Id: rng.Pick(g.r, []core.ActionID{1, 1, 1, 2, 0, 9, 3, 4, -1}), Attributes: anyOf(&actiontypes.FeeAttributes{FeesInfo: infos})})
 	}
 	if strings.HasPrefix(how, "constructor") {
 		if pw, err := core.NewPayloadWrapper(fwd, acts...); err == nil {
